@@ -6,6 +6,8 @@ pub fn dispatch(op: &str, _req: &Value) -> Value {
 	match op {
 		"spin_test" => spin_test(_req),
 		"sigshapes" => sigshapes(_req),
+		"csr_subsets" => csr_subsets(_req),
+		"c02_histories" => c02_histories(_req),
 		_ => json!({"ok": false, "machinery_error": format!("unknown op {op}")}),
 	}
 }
@@ -138,4 +140,356 @@ fn sigshapes(req: &Value) -> Value {
 		}
 	}
 	json!({"ok": true, "key_type": kt_name, "signatures": n, "verified": verified, "cells": cells, "all_cells": done(&cells), "failures": failures, "samples": samples, "cap_hit": n >= cap})
+}
+
+pub const SUBJECT_ATTRS: [(&str, &str, &str); 15] = [
+	("country_name", "2.5.4.6", "FR"),
+	("generation_qualifier", "2.5.4.44", "III"),
+	("given_name", "2.5.4.42", "Given"),
+	("initials", "2.5.4.43", "GN"),
+	("locality_name", "2.5.4.7", "Locality"),
+	("name", "2.5.4.41", "Some Name"),
+	("organization_name", "2.5.4.10", "Org"),
+	("organizational_unit_name", "2.5.4.11", "Unit"),
+	("pkcs9_email_address", "1.2.840.113549.1.9.1", "pki@example.org"),
+	("postal_address", "2.5.4.16", "1 Main Street"),
+	("postal_code", "2.5.4.17", "75001"),
+	("state_or_province_name", "2.5.4.8", "State"),
+	("street", "2.5.4.9", "Main Street"),
+	("surname", "2.5.4.4", "Sur"),
+	("title", "2.5.4.12", "Dr"),
+];
+
+fn attr_enum(i: usize) -> acme_common::crypto::SubjectAttribute {
+	use acme_common::crypto::SubjectAttribute as S;
+	[
+		S::CountryName,
+		S::GenerationQualifier,
+		S::GivenName,
+		S::Initials,
+		S::LocalityName,
+		S::Name,
+		S::OrganizationName,
+		S::OrganizationalUnitName,
+		S::Pkcs9EmailAddress,
+		S::PostalAddress,
+		S::PostalCode,
+		S::StateOrProvinceName,
+		S::Street,
+		S::Surname,
+		S::Title,
+	][i]
+}
+
+/// Csr::new over subsets (bit masks) of the 15 subject attributes; the DER is read back with the
+/// independent walker and the RDN set compared with the configured one.
+fn csr_subsets(req: &Value) -> Value {
+	let masks: Vec<u64> = match req.get("masks").and_then(|v| v.as_array()) {
+		Some(a) => a.iter().filter_map(|x| x.as_u64()).collect(),
+		None => {
+			let from = req.get("from").and_then(|v| v.as_u64()).unwrap_or(0);
+			let to = req.get("to").and_then(|v| v.as_u64()).unwrap_or(1 << 15);
+			(from..to).collect()
+		}
+	};
+	let key = acme_common::crypto::gen_keypair(acme_common::crypto::KeyType::EcdsaP256).unwrap();
+	let mut bad = vec![];
+	let mut n = 0u64;
+	let mut sizes = std::collections::BTreeMap::new();
+	for m in masks {
+		n += 1;
+		let mut hm = std::collections::HashMap::new();
+		let mut want: Vec<(String, String)> = vec![];
+		for i in 0..15 {
+			if m & (1 << i) != 0 {
+				hm.insert(attr_enum(i), SUBJECT_ATTRS[i].2.to_string());
+				want.push((SUBJECT_ATTRS[i].1.to_string(), SUBJECT_ATTRS[i].2.to_string()));
+			}
+		}
+		*sizes.entry(want.len()).or_insert(0u64) += 1;
+		let csr = acme_common::crypto::Csr::new(
+			&key,
+			acme_common::crypto::HashFunction::Sha256,
+			&["a.example".to_string()],
+			&[],
+			&hm,
+		);
+		let csr = match csr {
+			Ok(c) => c,
+			Err(e) => {
+				bad.push(json!({"mask": m, "error": e.message}));
+				continue;
+			}
+		};
+		let der = cu::b64u_dec(&csr.to_der_base64().unwrap()).unwrap();
+		let (info, rep) = super::ca::analyse_csr(&der);
+		match info {
+			None => bad.push(json!({"mask": m, "error": rep})),
+			Some(i) => {
+				let mut got = i.subject.clone();
+				got.sort();
+				want.sort();
+				if got != want || rep["selfsig_ok"] != json!(true) || i.san.dns != vec!["a.example".to_string()] {
+					bad.push(json!({"mask": m, "want": want, "got": got, "report": rep}));
+				}
+			}
+		}
+		if bad.len() > 20 {
+			break;
+		}
+	}
+	json!({"ok": true, "evaluated": n, "bad": bad, "sizes": sizes})
+}
+
+pub fn plain_fm(dir: &str, name: &str, key_type: &str) -> crate::storage::FileManager {
+	crate::storage::FileManager {
+		account_name: name.to_string(),
+		account_directory: format!("{dir}/accounts"),
+		crt_name: name.to_string(),
+		crt_name_format: "{{ name }}_{{ key_type }}.{{ file_type }}.{{ ext }}".to_string(),
+		crt_directory: format!("{dir}/certs"),
+		crt_key_type: key_type.to_string(),
+		cert_file_mode: 0o644,
+		cert_file_owner: None,
+		cert_file_group: None,
+		cert_file_ext: None,
+		pk_file_mode: 0o600,
+		pk_file_owner: None,
+		pk_file_group: None,
+		pk_file_ext: None,
+		hooks: vec![],
+		env: std::collections::HashMap::new(),
+	}
+}
+
+fn make_account(
+	fm: &crate::storage::FileManager,
+	name: &str,
+	n_contacts: usize,
+	n_endpoints: usize,
+	n_past: usize,
+	eab: bool,
+	keys: &[acme_common::crypto::KeyPair],
+) -> crate::account::Account {
+	use crate::account::{Account, AccountEndpoint, AccountKey, ExternalAccount};
+	let mk = |k: &acme_common::crypto::KeyPair| AccountKey {
+		creation_date: std::time::SystemTime::UNIX_EPOCH + std::time::Duration::from_secs(1_700_000_000),
+		key: k.clone(),
+		signature_algorithm: k.key_type.get_default_signature_alg(),
+	};
+	let mut endpoints = std::collections::HashMap::new();
+	for i in 0..n_endpoints {
+		let mut e = AccountEndpoint::new();
+		e.account_url = format!("https://ca{i}.example/acct/{}", "7".repeat(i * 9 + 1));
+		e.orders_url = format!("https://ca{i}.example/orders");
+		e.key_hash = vec![i as u8; 32];
+		e.contacts_hash = vec![0xc0 | i as u8; 32];
+		if eab {
+			e.external_account_hash = vec![0xe0 | i as u8; 32];
+		}
+		endpoints.insert(format!("endpoint-{i}"), e);
+	}
+	let contacts: Vec<(String, String)> = (0..n_contacts)
+		.map(|i| ("mailto".to_string(), format!("contact{}@{}example.org", i, "sub.".repeat(i))))
+		.collect();
+	let mut a = futures::executor::block_on(Account::load(fm, name, &contacts, &None, &None, &None)).unwrap();
+	a.endpoints = endpoints;
+	a.current_key = mk(&keys[0]);
+	a.past_keys = (0..n_past).map(|i| mk(&keys[1 + i % (keys.len() - 1)])).collect();
+	a.external_account = if eab {
+		Some(ExternalAccount {
+			identifier: "kid-\u{e9}\u{4eac}".to_string(),
+			key: vec![7u8; 48],
+			signature_algorithm: acme_common::crypto::JwsSignatureAlgorithm::Hs384,
+		})
+	} else {
+		None
+	};
+	a
+}
+
+fn account_fingerprint(a: &crate::account::Account) -> String {
+	let mut eps: Vec<String> = a
+		.endpoints
+		.iter()
+		.map(|(k, e)| {
+			format!(
+				"{k}|{}|{}|{}|{}|{}|{:?}",
+				e.account_url,
+				e.orders_url,
+				cu::hexs(&e.key_hash),
+				cu::hexs(&e.contacts_hash),
+				cu::hexs(&e.external_account_hash),
+				e.creation_date
+			)
+		})
+		.collect();
+	eps.sort();
+	let keyfp = |k: &crate::account::AccountKey| {
+		format!(
+			"{}|{}|{:?}",
+			cu::hexs(&cu::sha256(&k.key.private_key_to_der().unwrap())),
+			k.signature_algorithm,
+			k.creation_date
+		)
+	};
+	format!(
+		"name={}|eps={:?}|contacts={:?}|cur={}|past={:?}|eab={:?}",
+		a.name,
+		eps,
+		a.contacts.iter().map(|c| c.to_string()).collect::<Vec<String>>(),
+		keyfp(&a.current_key),
+		a.past_keys.iter().map(keyfp).collect::<Vec<String>>(),
+		a.external_account.as_ref().map(|e| format!("{}|{}|{}", e.identifier, cu::hexs(&e.key), e.signature_algorithm))
+	)
+}
+
+/// E3 for C02: all write histories up to `depth` per file type over a length-diverse content
+/// alphabet, from three initial states; after every write the file must hold exactly the new content.
+fn c02_histories(req: &Value) -> Value {
+	let depth = req.get("depth").and_then(|v| v.as_u64()).unwrap_or(3) as usize;
+	let ftype = req.get("file_type").and_then(|v| v.as_str()).unwrap_or("crt").to_string();
+	let dir = super::scenario::make_scratch();
+	std::fs::create_dir_all(format!("{dir}/certs")).unwrap();
+	std::fs::create_dir_all(format!("{dir}/accounts")).unwrap();
+	std::fs::create_dir_all(format!("{dir}/ref")).unwrap();
+	let fm = plain_fm(&dir, "hist", "x");
+	let rt = tokio::runtime::Builder::new_current_thread().enable_all().build().unwrap();
+	use acme_common::crypto::{gen_keypair, KeyType};
+	let keys = vec![
+		gen_keypair(KeyType::EcdsaP256).unwrap(),
+		gen_keypair(KeyType::Rsa2048).unwrap(),
+		gen_keypair(KeyType::EcdsaP384).unwrap(),
+		gen_keypair(KeyType::Ed25519).unwrap(),
+		gen_keypair(KeyType::Rsa4096).unwrap(),
+	];
+	// content alphabet
+	let mut pki = super::ca::Pki::new("hist");
+	let pubkey = openssl::pkey::PKey::public_key_from_der(&keys[0].inner_key.public_key_to_der().unwrap()).unwrap();
+	let chains: Vec<Vec<u8>> = (1..=4)
+		.map(|n| super::ca::chain_pem(&pki.issue(&pubkey, &["hist.example".to_string()], &[], -3600, 86400, n)).into_bytes())
+		.collect();
+	let key_alpha: Vec<usize> = vec![4, 1, 2, 3]; // rsa4096, rsa2048, p384, ed25519 (decreasing PEM length)
+	let acct_shapes: Vec<(usize, usize, usize, bool)> = vec![(3, 3, 2, true), (0, 0, 0, false), (1, 2, 1, false), (2, 1, 0, true)];
+	let alpha_len = 4usize;
+	let path = match ftype.as_str() {
+		"crt" => rt.block_on(crate::storage::get_certificate_path(&fm)).unwrap(),
+		"pk" => rt.block_on(crate::storage::get_keypair_path(&fm)).unwrap(),
+		_ => std::path::PathBuf::from(format!("{dir}/accounts/{}.account.bin", acme_common::b64_encode("hist"))),
+	};
+	let inits: Vec<(&str, Option<Vec<u8>>)> = vec![
+		("absent", None),
+		("empty", Some(vec![])),
+		("garbage-20k", Some(vec![b'#'; 20000])),
+	];
+	let mut histories = 0u64;
+	let mut writes = 0u64;
+	let mut states = std::collections::BTreeSet::new();
+	let mut bad: Vec<Value> = vec![];
+	let mut samples = vec![];
+	// enumerate all sequences of length 1..=depth
+	let mut seqs: Vec<Vec<usize>> = vec![vec![]];
+	let mut all: Vec<Vec<usize>> = vec![];
+	for _ in 0..depth {
+		let mut nxt = vec![];
+		for s in seqs.iter() {
+			for a in 0..alpha_len {
+				let mut t = s.clone();
+				t.push(a);
+				nxt.push(t);
+			}
+		}
+		all.extend(nxt.iter().cloned());
+		seqs = nxt;
+	}
+	// only maximal-length sequences need running: every shorter one is a prefix (checked after each write)
+	for (iname, init) in inits.iter() {
+		for seq in seqs.iter() {
+			histories += 1;
+			let _ = std::fs::remove_file(&path);
+			if let Some(d) = init {
+				std::fs::write(&path, d).unwrap();
+			}
+			let mut prev_len: i64 = init.as_ref().map(|d| d.len() as i64).unwrap_or(-1);
+			for (step, a) in seq.iter().enumerate() {
+				writes += 1;
+				let (written, res): (Vec<u8>, Result<(), String>) = match ftype.as_str() {
+					"crt" => {
+						let d = chains[*a].clone();
+						let r = rt.block_on(crate::storage::write_certificate(&fm, &d)).map_err(|e| e.message);
+						(d, r)
+					}
+					"pk" => {
+						let k = &keys[key_alpha[*a]];
+						let d = k.private_key_to_pem().unwrap();
+						let r = rt.block_on(crate::storage::set_keypair(&fm, k)).map_err(|e| e.message);
+						(d, r)
+					}
+					_ => {
+						let (c, e, p, eab) = acct_shapes[*a];
+						// reference: the same account saved into an empty directory
+						let ref_dir = format!("{dir}/ref/{histories}-{step}");
+						std::fs::create_dir_all(format!("{ref_dir}/accounts")).unwrap();
+						let mut rfm = plain_fm(&ref_dir, "hist", "x");
+						rfm.account_directory = format!("{ref_dir}/accounts");
+						// when the initial file is not a loadable account, loading would fail: build
+						// the account against the reference directory and point it at the real one
+						let mut acc = make_account(&rfm, "hist", c, e, p, eab, &keys);
+						rt.block_on(acc.save()).unwrap();
+						let ref_bytes = std::fs::read(format!("{ref_dir}/accounts/{}.account.bin", acme_common::b64_encode("hist"))).unwrap();
+						acc.file_manager = fm.clone();
+						let r = rt.block_on(acc.save()).map_err(|e| e.message);
+						let want_fp = account_fingerprint(&acc);
+						if r.is_ok() {
+							// must load back equal
+							let contacts: Vec<(String, String)> = acc.contacts.iter().map(|c| ("mailto".to_string(), c.value.clone())).collect();
+							match rt.block_on(crate::account::Account::load(&fm, "hist", &contacts, &Some(acc.current_key.key.key_type.to_string()), &None, &acc.external_account)) {
+								Ok(back) => {
+									let got_fp = account_fingerprint(&back);
+									if got_fp != want_fp {
+										bad.push(json!({"oracle": "acct-len+roundtrip", "file_type": ftype, "init": iname, "history": seq[..=step].to_vec(), "detail": "loaded account differs from the saved one", "want": want_fp, "got": got_fp}));
+									}
+								}
+								Err(err) => {
+									bad.push(json!({"oracle": "acct-len+roundtrip", "file_type": ftype, "init": iname, "history": seq[..=step].to_vec(), "detail": format!("saved account does not load: {}", err.message), "dir": if (prev_len as usize) > ref_bytes.len() { "longer->shorter" } else { "other" }}));
+								}
+							}
+						}
+						let _ = std::fs::remove_dir_all(&ref_dir);
+						(ref_bytes, r)
+					}
+				};
+				if let Err(e) = res {
+					bad.push(json!({"oracle": "write-ok", "file_type": ftype, "init": iname, "history": seq[..=step].to_vec(), "detail": e}));
+					break;
+				}
+				let on_disk = std::fs::read(&path).unwrap_or_default();
+				let dirn = if prev_len < 0 {
+					"absent->new"
+				} else if (prev_len as usize) > written.len() {
+					"longer->shorter"
+				} else if (prev_len as usize) < written.len() {
+					"shorter->longer"
+				} else {
+					"same-length"
+				};
+				states.insert(format!("{ftype}|{}|{}", a, dirn));
+				let ok = if ftype == "account" { on_disk.len() == written.len() } else { on_disk == written };
+				if !ok {
+					bad.push(json!({"oracle": if ftype == "account" { "acct-len+roundtrip" } else { "file=written" }, "file_type": ftype, "init": iname, "dir": dirn,
+						"history": seq[..=step].to_vec(), "detail": format!("file has {} bytes, {} were written (previous content {} bytes)", on_disk.len(), written.len(), prev_len)}));
+				}
+				if samples.len() < 3 && step == seq.len() - 1 {
+					samples.push(json!({"file_type": ftype, "init": iname, "history": seq, "final_len": on_disk.len()}));
+				}
+				prev_len = on_disk.len() as i64;
+			}
+			if bad.len() > 200 {
+				break;
+			}
+		}
+	}
+	let _ = std::fs::remove_dir_all(&dir);
+	let _ = all;
+	json!({"ok": true, "file_type": ftype, "depth": depth, "histories": histories, "writes": writes, "states": states.len(), "bad": bad, "samples": samples})
 }
